@@ -43,7 +43,8 @@ class Ctx:
     # ---- facts
     def facts(self, cfg="default"):
         if cfg not in self._facts:
-            self._facts[cfg] = F.Facts(extract.facts_path(cfg), cfg)
+            import normalise
+            self._facts[cfg] = normalise.load(cfg)
             self.configs_used.append(cfg)
         return self._facts[cfg]
 
@@ -183,6 +184,12 @@ def run(prop, tier, seed=0, replay=None):
             "configurations": ctx.configs_used,
             "facts": {c: {"functions": fx.meta.get("n_fn"), "coroutines": fx.meta.get("n_coroutine"),
                           "blocks": fx.meta.get("n_blocks")} for c, fx in ctx._facts.items()},
+            "normalisation": {c: {"baseline": fx.normalisation.get("baseline"),
+                                  "renamed_fields": fx.normalisation.get("renamed_fields", []),
+                                  "renamed_fns": fx.normalisation.get("renamed_fns", []),
+                                  "new_fns_inlined_into_their_callers": sorted(fx.hidden())[:60],
+                                  "new_fns": len(fx.new_fns),
+                                  "baseline_fns_missing": fx.normalisation.get("missing_fns", [])[:40]} for c, fx in ctx._facts.items()},
             "known_findings_reported": len(old),
             "notes": ctx.notes,
             "exhaustive": False,
